@@ -36,7 +36,7 @@ RECURSIVE Consume(_, _)
 Consume(a, j) ==
   IF j > N \/ Rec[j].ev = "reset" THEN <<a, j>>
   ELSE LET e == Rec[j]
-           a1 == IF e.ev = "hang" THEN A!Viol(a, "C07", "hang", e.who) ELSE A!AbsStep(a, e) IN
+           a1 == IF e.ev = "hang" THEN A!Viol(a, IF "p" \in DOMAIN e THEN e.p ELSE "C07", "hang", e.who) ELSE A!AbsStep(a, e) IN
        Consume(a1, j + 1)
 
 Show(run, v) == PrintT(<<"VIOL", ToJson([run |-> run, p |-> v.p, w |-> v.w, k |-> IF v.k = None THEN "" ELSE v.k, d |-> ToString(v.d)])>>)
